@@ -138,6 +138,31 @@ func facetRef(args []string) error {
 			pairs = append(pairs, pair{kind: "resp", ref: rsp.Gen, inl: g2, resp: rsp})
 		}
 	}
+	if *shard%4 == 1 {
+		// a request body given by reference to components.requestBodies, with several media types in
+		// every order around application/json, vs. the same body written inline
+		others := [][]string{{"application/cbor"}, {"text/plain"}, {"application/cbor", "text/plain"}, {"*/*"}, {}}[(*shard/4)%5]
+		content := map[string]any{"application/json": map[string]any{"schema": map[string]any{"type": "array", "items": map[string]any{"$ref": "#/components/schemas/Pet"}}}}
+		for _, mt := range others {
+			content[mt] = map[string]any{"schema": map[string]any{"type": "string", "format": "binary"}}
+		}
+		doc := map[string]any{"openapi": "3.0.3", "info": map[string]any{"title": "t", "version": "1"},
+			"paths": map[string]any{"/batch": map[string]any{"post": map[string]any{"requestBody": map[string]any{"$ref": "#/components/requestBodies/Batch"},
+				"responses": map[string]any{"200": map[string]any{"description": "ok"}}}}},
+			"components": map[string]any{"requestBodies": map[string]any{"Batch": map[string]any{"content": content}},
+				"schemas": map[string]any{"Pet": map[string]any{"type": "object", "required": []any{"id"}, "properties": map[string]any{"id": map[string]any{"type": "integer"}, "name": map[string]any{"type": "string"}}}}}}
+		bs, _ := json.Marshal(doc)
+		g := GenSpec{Name: fmt.Sprintf("x%02d_qr", *shard), Spec: bs, Ext: "json", DoNotEdit: true}
+		// the inline form: the same body written at the operation, the component gone
+		doc["paths"] = map[string]any{"/batch": map[string]any{"post": map[string]any{"requestBody": map[string]any{"content": content},
+			"responses": map[string]any{"200": map[string]any{"description": "ok"}}}}}
+		delete(doc["components"].(map[string]any), "requestBodies")
+		bs2, _ := json.Marshal(doc)
+		g2 := g
+		g2.Name = fmt.Sprintf("x%02d_qi", *shard)
+		g2.Spec = bs2
+		pairs = append(pairs, pair{kind: "reqbody", ref: g, inl: g2})
+	}
 	if *shard == 0 {
 		// fixed witnesses of KF-C01-nameCollision / KF-C01-hoistedRawName: helper types hoisted from
 		// an anonymous (inlined) request / response body are named after the property alone
@@ -215,6 +240,12 @@ func facetRef(args []string) error {
 					c.Query = strings.Join(qparts, "&")
 					add(c, "serve")
 				}
+			}
+		case "reqbody":
+			for bi, b := range []string{`[{"id":1,"name":"rex"}]`, `[]`, `[{"name":"no id"}]`, `[{"id":"x"}]`, `{"id":1}`, `[{"id":`, ``, `null`, `not json`} {
+				b := b
+				add(rt.Case{Op: "serve", ID: fmt.Sprintf("b%d", bi), Method: "POST", Path: "/batch", Body: &b, Mws: 1,
+					Headers: [][2]string{{"Content-Type", "application/json"}}}, "serve")
 			}
 		case "json":
 			k := 0
